@@ -13,6 +13,30 @@ import time
 from . import env
 
 EXIT_HELD, EXIT_VIOLATED, EXIT_INCONCLUSIVE = 0, 1, 2
+COVERAGE = {}
+
+
+def anchor_coverage(pid):
+    """Lines of the property's anchor files reached by this run's workers (one-shot
+    sys.monitoring LINE events), as {file: {reached, total}}."""
+    from . import coverage
+    out = {}
+    try:
+        props = [json.loads(l) for l in open(os.path.join(env.VERIF, "properties.jsonl"))]
+        files = next(p["anchors"]["files"] for p in props if p["id"] == pid)
+    except Exception:
+        return out
+    for f in files:
+        if not f.endswith(".py"):
+            continue
+        rel = f.split("propka/", 1)[-1]
+        path = os.path.join(env.REPO, "propka", rel)
+        if not os.path.exists(path):
+            continue
+        total = coverage.executable_lines(path)
+        reached = COVERAGE.get(rel, set()) & total
+        out[f] = {"reached": len(reached), "total": len(total)}
+    return out
 
 
 def load_known():
@@ -72,7 +96,12 @@ def run_cases(pid, cases, tier, nproc=None, timeout=None, log=print, worker_env_
                         line = line.strip()
                         if line:
                             try:
-                                results.append(json.loads(line))
+                                rec = json.loads(line)
+                                if "coverage_record" in rec:
+                                    for fn, lns in rec["coverage_record"].items():
+                                        COVERAGE.setdefault(fn, set()).update(lns)
+                                    continue
+                                results.append(rec)
                                 got += 1
                             except ValueError:
                                 errors.append("worker %d: unparsable result line" % k)
@@ -199,6 +228,7 @@ def main_check(pid, tier, replay=None, out=print):
             "known_findings_hit": sorted(known_hit),
             "inconclusive_cases": inconclusive_cases,
             "cases": len(cases),
+            "anchor_lines": anchor_coverage(pid),
             "explanation": getattr(mod, "EXPLANATION", ""),
             "exhaustive": bool(getattr(mod, "EXHAUSTIVE", {}).get(tier, False)),
             "verdict": "violated" if unlisted else ("inconclusive" if reasons else "held"),
